@@ -28,7 +28,8 @@ RULE = ("(1) grids [6-8]^4 written in each of the three layouts (and the complex
         "read back on P2 in {1,2,3,4,6} ranks via Grid.loadFromFile and via setupFromFile (with/without layout change), random "
         "data; (2) constants objects with randomly perturbed values (incl. a peak radius different from the midpoint) saved by "
         "setupSave and re-read; the same file with keys in seeded-random order; files using symbolic expressions in random "
-        "order; (3) folders holding checkpoints at times of 1-7 digits, restart with and without explicit timepoint; (4) "
+        "order, also with 17-digit base values referenced by expressions; (3) folders holding checkpoints at times of 1-7 digits (time 0 included), restart and "
+        "Grid.loadFromFile with and without explicit time; symmetric and asymmetric velocity domains (restarted grid must have the coordinates and knots of the original); (4) "
         "driver: save interval 1-4, every split N+M <= 4 (N,M >= 1), grid 8^4, P in {1,2,4}, final grid and potential files of "
         "split vs unsplit run compared.  A class is (monitor, layout/P1->P2 | key-order kind | digit pattern | (S,N,M,P)).")
 ASSUMPTIONS = ["h5py 'mpio' driver emulated: collective open/create/attrs/close with argument agreement, independent disjoint hyperslab writes (parallel HDF5 itself is not installed)",
@@ -49,9 +50,11 @@ def gen_cases(tier, seed):
         cases.append({"kind": "roundtrip", "npts": [rng.randint(6, 8) for _ in range(4)], "P1": rng.choice(Ps), "P2": rng.choice(Ps),
                       "layout": ["flux_surface", "v_parallel", "poloidal"][k % 3], "seed": rng.randrange(1 << 30), "cost": 100})
     for k in range(12 if tier == "quick" else 900):
-        cases.append({"kind": "constants", "mode": ["defaults", "perturbed", "perturbed-rp", "shuffled", "symbolic"][k % 5], "seed": rng.randrange(1 << 30), "cost": 2})
+        cases.append({"kind": "constants", "mode": ["defaults", "perturbed", "perturbed-rp", "shuffled", "symbolic", "symbolic-long"][k % 6], "seed": rng.randrange(1 << 30), "cost": 2})
     for k in range(6 if tier == "quick" else 150):
         times = sorted(set(rng.choice([0, 2, 8, 10, 14, 100, 250, 1000, 4096, 99998, 100000]) for _ in range(rng.randint(2, 5))))
+        if k % 2 == 0:
+            times = sorted(set(times + [0]))
         if k % 3 == 2:
             times = sorted(set(times + [999998, 1000000]))
         cases.append({"kind": "selection", "times": times, "P": rng.choice([1, 2]), "seed": rng.randrange(1 << 30), "cost": 30})
@@ -106,7 +109,10 @@ def _roundtrip(case, tmp):
         return result(SKIP, what="no process grid for these sizes")
     cfile = os.path.join(tmp, "c.json")
     rp_given = 2.0 + (case["seed"] % 7) * 0.25 if case["seed"] % 2 else None        # midpoint would be 3.2
-    dr.write_constants(cfile, npts, dt=2, extra={"rp": rp_given} if rp_given else None,
+    extra = {"rp": rp_given} if rp_given else {}
+    if case["seed"] % 3 == 0:
+        extra.update({"vMin": -5.0 + (case["seed"] % 5) * 0.25, "vMax": 4.5 + (case["seed"] % 4) * 0.5})       # asymmetric velocity domain
+    dr.write_constants(cfile, npts, dt=2, extra=extra or None,
                        order=["rp", "npts", "rMin", "rMax", "splineDegrees", "dt", "zMin", "R0", "zMax", "vMax", "vMin", "eps", "m", "n", "iotaVal"] if case["seed"] % 4 == 1 else None)
     folder = os.path.join(tmp, "sim")
     os.mkdir(folder)
@@ -175,6 +181,8 @@ def _roundtrip(case, tmp):
         out["setup_layout"] = simrun.Sim.block(g3)
         out["lay3"] = g3.currentLayout
         out["rp"] = (c.rp, c2.rp, c3.rp)
+        out["eta"] = [[np.array(x, dtype=float) for x in g.eta_grid] for g in (grid, g2, g3)]
+        out["knots"] = [[np.array(g.getSpline(i).knots, dtype=float) for i in range(4)] for g in (grid, g2, g3)]
         return out
 
     w2 = MPI.run_world(P2, reader, schedule="random", seed=case["seed"] + 1, timeout=600)
@@ -195,6 +203,15 @@ def _roundtrip(case, tmp):
     r0 = w2.results[0]
     if r0["t"] != t_write or r0["lay"] != layout or r0["lay3"] != want_layout:
         return result(VIOL, cls=[base], events=ev, key="C18:restart-metadata", what="setupFromFile returned time %r / layouts %r,%r; expected %r / %r,%r" % (r0["t"], r0["lay"], r0["lay3"], t_write, layout, want_layout), witness=wit)
+    for r_ in w2.results:
+        for what_, lists in (("coordinates", r_["eta"]), ("spline knots", r_["knots"])):
+            for which, other in (("setupFromFile", lists[1]), ("setupFromFile(layout=...)", lists[2])):
+                for i in range(4):
+                    ev["roundtrip_fields_compared"] += 1
+                    if lists[0][i].shape != other[i].shape or not np.array_equal(lists[0][i], other[i]):
+                        return result(VIOL, cls=[base], events=ev, key="C18:restart-grid-differs/%s" % what_.split()[-1],
+                                      what="%s: %s of dimension %d differ from those of the original set-up (max difference %.3g); constants %r"
+                                      % (which, what_, i, float(np.abs(lists[0][i] - other[i]).max()) if lists[0][i].shape == other[i].shape else -1, extra), witness=wit)
     if rp_given is not None and any(x != rp_given for x in r0["rp"]):
         return result(VIOL, cls=[base], events=ev, key=KEY_RP, what="peak radius rp=%r of the constants file is %r after setupCylindricalGrid / setupFromFile" % (rp_given, r0["rp"]), witness=wit)
     return result(HELD, cls=[base, "roundtrip/%s/%s" % (layout, "sameP" if P1 == P2 else "differentP")], events=ev, n_eval=ev["roundtrip_fields_compared"])
@@ -236,6 +253,28 @@ def _constants(case, tmp):
         c.getCN0()
     folder = os.path.join(tmp, "save")
     want = _public(c)
+    if mode == "symbolic-long":
+        # base constants with all 17 significant digits, referenced by expressions (also through other expressions);
+        # reference: the same expressions evaluated by Python on the float values themselves
+        from math import pi
+        b = {"R0": rng.uniform(100, 300), "rMin": rng.uniform(0.1, 1.0), "rMax": rng.uniform(5, 20), "vMax": rng.uniform(3, 9), "deltaRTi": rng.uniform(0.5, 3.0),
+             "kTi": rng.randint(1, 28) / 29.0, "deltaRN0": rng.uniform(1.0, 4.0) / 3.0}
+        exprs = {"vMin": ("-vMax", -b["vMax"]), "zMax": ("2*pi*R0", 2 * pi * b["R0"]), "deltaRTe": ("deltaRTi/3", b["deltaRTi"] / 3), "kTe": ("kTi*7", b["kTi"] * 7),
+                 "deltaR": ("4.0*deltaRN0/deltaRTi", 4.0 * b["deltaRN0"] / b["deltaRTi"]), "kN0": ("kTe/(R0-rMax)", b["kTi"] * 7 / (b["R0"] - b["rMax"]))}
+        d = dict(b, npts=[16, 16, 16, 16], dt=2, **{k: v[0] for k, v in exprs.items()})
+        keys = list(d)
+        for rep in range(4):
+            rng.shuffle(keys)
+            p = os.path.join(tmp, "syml%d.json" % rep)
+            with open(p, "w") as f:
+                json.dump({k: d[k] for k in keys}, f)
+            r = _public(cm.get_constants(p))
+            for k, v in list(b.items()) + [(k, v[1]) for k, v in exprs.items()]:
+                ev["constants_attributes_compared"] += 1
+                if not abs(r[k] - v) <= 1e-14 * abs(v):
+                    return result(VIOL, cls=["constants/symbolic-long"], events=ev, key="C18:constants/symbolic-expression" if k in exprs else "C18:constants/%s" % k,
+                                  what="constant %s%s evaluated to %r, expected %r (relative difference %.3g)" % (k, " = '%s'" % exprs[k][0] if k in exprs else "", r[k], v, abs(r[k] - v) / abs(v)), witness={"case": case, "file": d})
+        return result(HELD, cls=["constants/symbolic-long"], events=ev, n_eval=ev["constants_attributes_compared"])
     if mode == "symbolic":
         d = {"R0": 200.0, "rMin": 0.5, "rMax": 12.5, "vMax": 6.0, "vMin": "-vMax", "zMax": "2*pi*R0", "deltaRTi": 1.5, "deltaRTe": "deltaRTi", "deltaRN0": "2.0*deltaRTe",
              "deltaR": "4.0*deltaRN0/deltaRTi", "kTi": 0.3, "kTe": "kTi", "npts": [16, 16, 16, 16], "dt": 2}
@@ -304,6 +343,7 @@ def _selection(case, tmp):
             d.attrs.create("Layout", np.array([0, 2, 1, 3]), (4,), h5py.h5t.STD_I32BE)
     rng = random.Random(case["seed"])
     pick = rng.choice(times)
+    others = sorted(set([times[0], times[-1], rng.choice(times)]))        # explicit requests, the smallest (often time 0) included
 
     def prog(rank):
         comm = MPI.COMM_WORLD
@@ -311,7 +351,14 @@ def _selection(case, tmp):
         g2, c2, t2 = setups.setupFromFile(folder, comm=comm, layout='v_parallel', timepoint=pick)
         g3, _c, _t = setups.setupCylindricalGrid('v_parallel', constantFile=cfile, comm=comm)
         g3.loadFromFile(folder)
-        return (t, float(g.getAllData().flat[0]), t2, float(g2.getAllData().flat[0]), float(g3.getAllData().flat[0]))
+        v3 = float(g3.getAllData().flat[0])
+        more = []
+        for tp in others:
+            g3.getAllData()[:] = -7.0
+            g3.loadFromFile(folder, tp)
+            g4, _c4, t4 = setups.setupFromFile(folder, comm=comm, layout='v_parallel', timepoint=tp)
+            more.append((tp, float(g3.getAllData().flat[0]), t4, float(g4.getAllData().flat[0])))
+        return (t, float(g.getAllData().flat[0]), t2, float(g2.getAllData().flat[0]), v3, more)
 
     w = MPI.run_world(P, prog, timeout=300)
     ev = dict(w.events)
@@ -325,8 +372,12 @@ def _selection(case, tmp):
         return result(VIOL, cls=cls, events=ev, key="C18:selection-exception:%s" % type(err[1]).__name__, what="rank %d raised %r" % (err[0], err[1]), witness=wit)
     tmax = max(times)
     for r in w.results:
-        t, v, t2, v2, v3 = r
-        ev["selection_checks"] += 3
+        t, v, t2, v2, v3, more = r
+        ev["selection_checks"] += 3 + 2 * len(more)
+        for tp, vload, t4, v4 in more:
+            if vload != float(tp) or t4 != tp or v4 != float(tp):
+                return result(VIOL, cls=cls, events=ev, key="C18:selection-timepoint", what="requested time %r among %r: Grid.loadFromFile gave the data of time %r, setupFromFile resumed at %r with the data of %r"
+                              % (tp, times, vload, t4, v4), witness=wit)
         key = KEY_7DIGIT if tmax >= 1000000 else "C18:selection"
         if t != tmax or v != float(tmax):
             return result(VIOL, cls=cls, events=ev, key=key, what="restart among checkpoints %r resumed at time %r with the data of time %r; the largest is %r" % (times, t, v, tmax), witness=wit)
@@ -342,7 +393,7 @@ def _driver(case, tmp):
     S, N, M, P, dt = case["S"], case["N"], case["M"], case["P"], case["dt"]
     npts = [8, 8, 8, 8]
     cfile = os.path.join(tmp, "c.json")
-    dr.write_constants(cfile, npts, dt=dt)
+    dr.write_constants(cfile, npts, dt=dt, extra={"vMin": -3.75, "vMax": 4.5} if case["seed"] % 2 else None)
     A, B = os.path.join(tmp, "A"), os.path.join(tmp, "B")
     ev = {"driver_continuity_runs": 0}
     cls = ["driver/S%d/N%d+M%d/P%d" % (S, N, M, P)]
